@@ -490,7 +490,8 @@ func (v *AVGValue) String() string {
 
 func (v *AVGValue) calculate() TypedValue {
 	if v.s.IsNull() {
-		return nil
+		// no non-NULL input: the average is NULL (a nil TypedValue panics in RawValue/Compare/String)
+		return &NullValue{t: AnyType}
 	}
 
 	val, err := applyNumOperator(DIVOP, v.s, &Integer{val: v.c})
